@@ -145,6 +145,25 @@ func c11BaseScenarios() []lncScen {
 				x.exchange(c2, sc2, 100, 3000)
 			}
 		}},
+		{"pairing-switch-delete-answer-lost", lncrun.Options{}, func(s *lncrun.Session, x *lncExpect) {
+			// when the listener leaves the passphrase rendezvous after the
+			// pairing, the relay deletes the old mailboxes but its answer to
+			// one of the two deletions is lost: the listener must still move
+			// to the key-derived rendezvous and meet the client there
+			s.Serve()
+			c, sc := x.connect(1)
+			if c == nil {
+				return
+			}
+			x.exchange(c, sc, 100)
+			s.Relay.LoseDelReplies(1)
+			c.Close("script")
+			x.check("the peer of a closed connection goes down", sc.AwaitDown(30*time.Second))
+			c2, sc2 := x.connect(2)
+			if c2 != nil {
+				x.exchange(c2, sc2, 100, 2000)
+			}
+		}},
 		{"second-client", lncrun.Options{}, func(s *lncrun.Session, x *lncExpect) {
 			// after the pairing a second client that knows the passphrase
 			// dials: while the first connection is open, and across the
